@@ -7,71 +7,82 @@ Local Open Scope Z_scope.
 Lemma memb_cons_ne : forall p q l, Nat.eqb p q = false -> memb p (q :: l) = memb p l.
 Proof. intros p q l H. cbn [memb]. rewrite H. reflexivity. Qed.
 
-Lemma of_pat_cons_eq : forall p (e : event) t, Nat.eqb (fst e) p = true -> of_pat p (e :: t) = snd e :: of_pat p t.
-Proof. intros p e t H. unfold of_pat. cbn [filter]. rewrite H. reflexivity. Qed.
-Lemma of_pat_cons_ne : forall p (e : event) t, Nat.eqb (fst e) p = false -> of_pat p (e :: t) = of_pat p t.
-Proof. intros p e t H. unfold of_pat. cbn [filter]. rewrite H. reflexivity. Qed.
-
 (* what the scan loop tracks for pattern p *)
 Lemma run_of_pat : forall fast el evs D p,
   of_pat p (run fast el evs D)
-  = if memb p D then [] else if fast && el p then firstn 1 (of_pat p evs) else of_pat p evs.
+  = if memb p D then [] else if fast && el p then first_hit p evs else of_pat p evs.
 Proof.
-  intros fast el evs. induction evs as [|[q m] t IH]; intros D p; cbn [run].
-  - destruct (memb p D); [reflexivity|]. destruct (fast && el p); reflexivity.
+  intros fast el evs. induction evs as [|[q ms] t IH]; intros D p; cbn [run].
+  - cbn [of_pat first_hit]. destruct (memb p D); [reflexivity|]. destruct (fast && el p); reflexivity.
   - destruct (memb q D) eqn:Mq.
     + rewrite IH. destruct (memb p D) eqn:Mp; [reflexivity|].
       assert (Nat.eqb q p = false) as Hne.
       { destruct (Nat.eqb q p) eqn:E; [|reflexivity]. apply Nat.eqb_eq in E. subst. congruence. }
-      rewrite (of_pat_cons_ne p (q, m) t Hne). reflexivity.
-    + destruct (Nat.eqb q p) eqn:E.
-      * pose proof E as E0. apply Nat.eqb_eq in E. subst q.
-        rewrite (of_pat_cons_eq p (p, m) _ E0), (of_pat_cons_eq p (p, m) t E0), IH. cbn [snd].
+      cbn [of_pat first_hit]. rewrite Hne. reflexivity.
+    + cbn [of_pat first_hit]. destruct (Nat.eqb q p) eqn:E.
+      * apply Nat.eqb_eq in E. subst q. rewrite IH, Mq. cbn [andb].
         destruct (fast && el p) eqn:Fe.
-        -- cbn [memb]. rewrite Nat.eqb_refl, Mq. reflexivity.
-        -- rewrite Mq. reflexivity.
-      * rewrite (of_pat_cons_ne p (q, m) _ E), (of_pat_cons_ne p (q, m) t E), IH.
-        assert (Nat.eqb p q = false) as E' by (rewrite Nat.eqb_sym; exact E).
-        destruct (fast && el q); [rewrite (memb_cons_ne p q D E')|]; reflexivity.
+        -- destruct ms as [|m ms']; cbn [nonempty andb app].
+           ++ rewrite Mq. reflexivity.
+           ++ cbn [memb]. rewrite Nat.eqb_refl. cbn [orb]. rewrite app_nil_r. reflexivity.
+        -- cbn [andb]. rewrite Mq. reflexivity.
+      * rewrite IH. assert (Nat.eqb p q = false) as E' by (rewrite Nat.eqb_sym; exact E).
+        destruct (fast && el q && nonempty ms); [rewrite (memb_cons_ne p q D E')|]; reflexivity.
 Qed.
 
 Lemma tracked_normal : forall el evs p, tracked false el evs p = of_pat p evs.
 Proof. intros. unfold tracked. rewrite run_of_pat. reflexivity. Qed.
 Lemma tracked_fast : forall el evs p,
-  tracked true el evs p = if el p then firstn 1 (of_pat p evs) else of_pat p evs.
+  tracked true el evs p = if el p then first_hit p evs else of_pat p evs.
 Proof. intros. unfold tracked. rewrite run_of_pat. reflexivity. Qed.
 
+(* the first hit that tracks something is a prefix of everything tracked *)
+Lemma first_hit_prefix : forall p evs, exists rest, of_pat p evs = first_hit p evs ++ rest.
+Proof.
+  intros p evs. induction evs as [|[q ms] t IH]; cbn [of_pat first_hit]; [exists []; reflexivity|].
+  destruct (Nat.eqb q p); cbn [andb]; [|exact IH].
+  destruct ms as [|m ms']; cbn [nonempty]; [exact IH|]. exists (of_pat p t). reflexivity.
+Qed.
+
+Lemma first_hit_nonempty : forall p evs, nonempty (first_hit p evs) = nonempty (of_pat p evs).
+Proof.
+  intros p evs. induction evs as [|[q ms] t IH]; cbn [of_pat first_hit]; [reflexivity|].
+  destruct (Nat.eqb q p); cbn [andb]; [|exact IH].
+  destruct ms as [|m ms']; cbn [nonempty app]; [exact IH|reflexivity].
+Qed.
+
 (* per pattern: the fast-scan matches are a subset of the normal ones; equal
-   for an ineligible pattern; for an eligible pattern exactly the first match
-   the scanner tracks *)
+   for an ineligible pattern; for an eligible pattern exactly the matches of
+   the first hit that tracks something - a prefix, in tracking order, of the
+   normal ones, containing the first match the scanner tracks *)
 Theorem fast_scan_matches_subset_with_first : forall el evs p,
   let N := tracked false el evs p in
   let F := tracked true el evs p in
   incl F N /\
   (el p = false -> F = N) /\
-  (el p = true -> F = firstn 1 N) /\
+  (el p = true -> F = first_hit p evs /\ exists rest, N = F ++ rest) /\
   (forall m, hd_error N = Some m -> In m F).
 Proof.
   intros el evs p N F. subst N F. rewrite tracked_normal, tracked_fast.
-  assert (Hhd : forall (l : list mt) m, hd_error l = Some m -> In m (firstn 1 l)).
-  { intros [|y l] m H; cbn [hd_error] in H; [discriminate|]. inversion H; subst. left; reflexivity. }
-  assert (Hhd2 : forall (l : list mt) m, hd_error l = Some m -> In m l).
-  { intros [|y l] m H; cbn [hd_error] in H; [discriminate|]. inversion H; subst. left; reflexivity. }
+  destruct (first_hit_prefix p evs) as [rest Hr].
   destruct (el p).
   - split; [|split; [|split]].
-    + intros x H. destruct (of_pat p evs); cbn [firstn] in H; [contradiction|]. destruct H as [<-|[]]. left; reflexivity.
+    + intros x H. rewrite Hr. apply in_or_app. left; exact H.
     + discriminate.
-    + reflexivity.
-    + apply Hhd.
+    + intros _. split; [reflexivity|exists rest; exact Hr].
+    + intros m H. pose proof (first_hit_nonempty p evs) as Hn.
+      destruct (first_hit p evs) as [|y l] eqn:E.
+      * cbn [nonempty] in Hn. destruct (of_pat p evs); [discriminate H|discriminate Hn].
+      * rewrite Hr in H. cbn [app hd_error] in H. inversion H; subst. left; reflexivity.
   - split; [|split; [|split]].
     + intros x H; exact H.
     + reflexivity.
     + discriminate.
-    + apply Hhd2.
+    + intros m H. destruct (of_pat p evs); cbn [hd_error] in H; [discriminate|]. inversion H; subst. left; reflexivity.
 Qed.
 
 (* if the scanner tracks the matches of p in ascending start order, the match
-   kept by fast scan is the one with the lowest start *)
+   kept by fast scan includes the one with the lowest start *)
 Fixpoint starts_ascending (l : list mt) : Prop :=
   match l with
   | [] => True
@@ -103,21 +114,18 @@ Theorem fast_first_is_lowest_refuted :
   exists el evs p s, min_start (tracked false el evs p) = Some s /\
                      forall len, ~ In (s, len) (tracked true el evs p).
 Proof.
-  exists (fun _ => true), [(0%nat, (2, 4)); (0%nat, (0, 10))], 0%nat, 0.
+  exists (fun _ => true), [(0%nat, [(2, 4)]); (0%nat, [(0, 10)])], 0%nat, 0.
   split; [reflexivity|]. intros len H. vm_compute in H. destruct H as [H|[]]. inversion H.
 Qed.
 
 (* ------------------------------------------------------------ verdicts *)
-Lemma nonempty_firstn1 : forall A (l : list A), nonempty (firstn 1 l) = nonempty l.
-Proof. intros A [|x t]; reflexivity. Qed.
-
 Lemma feval_same : forall el evs prev c,
   (forall p, observes c p = true -> el p = false) ->
   feval (tracked true el evs) prev c = feval (tracked false el evs) prev c.
 Proof.
   intros el evs prev c. induction c as [b|p|p f|p f|r|c IH|a IHa b IHb|a IHa b IHb]; intros H; cbn [feval].
   - reflexivity.
-  - rewrite tracked_fast, tracked_normal. destruct (el p); [apply nonempty_firstn1|reflexivity].
+  - rewrite tracked_fast, tracked_normal. destruct (el p); [apply first_hit_nonempty|reflexivity].
   - rewrite tracked_fast, tracked_normal. rewrite (H p); [reflexivity|]. cbn [observes]. apply Nat.eqb_refl.
   - rewrite tracked_fast, tracked_normal. rewrite (H p); [reflexivity|]. cbn [observes]. apply Nat.eqb_refl.
   - reflexivity.
@@ -160,7 +168,7 @@ Qed.
 
 (* ... and as coded (the bit is left alone) a verdict can change *)
 Definition w_rules : list fcond := [FOfAnch 0 (fun l => existsb (fun m => (10 <=? fst m) && (fst m <=? 20)) l)].
-Definition w_events : list event := [(0%nat, (0, 4)); (0%nat, (12, 4))].
+Definition w_events : list event := [(0%nat, [(0, 4)]); (0%nat, [(12, 4)])].
 Theorem fast_scan_same_verdicts_refuted :
   scan_verdicts false true w_rules w_events = [false] /\ scan_verdicts false false w_rules w_events = [true].
 Proof. vm_compute. split; reflexivity. Qed.
@@ -184,10 +192,10 @@ Qed.
    that one rule counts (ineligible) and another uses bare *)
 Example fast_scan_example :
   let rules := [FAnd (FBare 0) (FBare 1); FObs 1 (fun l => Nat.leb 2 (length l)); FOr (FRule 0) (FNot (FBare 2))] in
-  let evs := [(1%nat, (3, 4)); (0%nat, (5, 2)); (0%nat, (9, 2)); (1%nat, (20, 4))] in
+  let evs := [(1%nat, [(3, 4)]); (0%nat, []); (0%nat, [(5, 2); (7, 2)]); (0%nat, [(9, 2)]); (1%nat, [(20, 4)])] in
   (forall p, In p [0; 1; 2]%nat -> forall c, In c rules -> observes c p = true -> elig false rules p = false) /\
   elig false rules 0 = true /\ elig false rules 1 = false /\
-  tracked true (elig false rules) evs 0%nat = [(5, 2)] /\ tracked true (elig false rules) evs 1%nat = [(3, 4); (20, 4)] /\
+  tracked true (elig false rules) evs 0%nat = [(5, 2); (7, 2)] /\ tracked true (elig false rules) evs 1%nat = [(3, 4); (20, 4)] /\
   scan_verdicts false true rules evs = [true; true; true].
 Proof.
   cbn zeta. split.
